@@ -1,3 +1,4 @@
+\* the design that reads the client random when the connection object is created: must violate HandshakeRandom
 SPECIFICATION Spec
 CONSTANTS
     Peers <- MCPeers
@@ -7,7 +8,7 @@ CONSTANTS
     DenyBelow = 128
     HelloSizes <- MCHelloSizes
     ZeroRandom <- MCZero
-    ReadAtFirst = FALSE
-INVARIANTS NoRequestUnlessAllowed DeniedIsClosed HandshakeRandom VerdictIsRules SessionGauge TcpOnlyServed
+    ReadAtFirst = TRUE
+INVARIANTS HandshakeRandom
 CONSTRAINT Bound
 CHECK_DEADLOCK FALSE
